@@ -22,14 +22,40 @@ class RngSite:
         self.kind = kind  # consume | write-state | entropy
 
 
+def scope_of_context(prog, fn, ce):
+    """If the context expression `ce` (of a with statement in fn) establishes a random-state scope, return
+    (set_random_state call, fn in which that call is written, {factory param: argument expr at the with}) else None.
+    Recognised: set_random_state(...) itself, and a project function every return of which is such a call
+    (a scope factory such as `_seeded(seed)`)."""
+    if not isinstance(ce, ast.Call):
+        return None
+    nm = prog.resolve(fn.module, ce.func)
+    if nm == SET_RANDOM_STATE:
+        return ce, fn, {}
+    g = prog.functions.get(nm) if nm else None
+    if g is not None and g.outer is None:
+        rets = [n for n in walk_no_nested(g.node) if isinstance(n, ast.Return)]
+        falls_through = not rets or not isinstance(g.body()[-1], (ast.Return, ast.Raise, ast.If))
+        good = [r for r in rets if isinstance(r.value, ast.Call) and prog.resolve(g.module, r.value.func) == SET_RANDOM_STATE]
+        if rets and len(good) == len(rets) and not falls_through:
+            binding = {}
+            for i, a in enumerate(ce.args):
+                if i < len(g.params):
+                    binding[g.params[i]] = a
+            for k in ce.keywords:
+                if k.arg:
+                    binding[k.arg] = k.value
+            return good[0].value, g, binding
+    return None
+
+
 def _inside_with_set_random_state(prog, fn, node):
     p = getattr(node, '_parent', None)
     child = node
     while p is not None and p is not fn.node:
         if isinstance(p, (ast.With, ast.AsyncWith)) and child in p.body:
             for it in p.items:
-                ce = it.context_expr
-                if isinstance(ce, ast.Call) and prog.resolve(fn.module, ce.func) == SET_RANDOM_STATE:
+                if scope_of_context(prog, fn, it.context_expr) is not None:
                     return p
         child = p
         p = getattr(p, '_parent', None)
